@@ -1,0 +1,64 @@
+//go:build verif
+
+package engine
+
+import (
+	"sync"
+	"sync/atomic"
+)
+
+// VerifSink, when set by a verification harness, receives the events of the pool life cycle
+// (see the verifEvent / verifAwait call sites in engine.go). seq is a per-pool sequence number.
+// The events of the await loop are written by the await goroutine itself, right after the
+// corresponding receive and before it acts on the result.
+var VerifSink func(pool string, seq int64, ev string, n int, err error)
+
+var (
+	verifSeq   sync.Map // pool id -> *int64
+	verifPools sync.Map // *runAwaitHandle -> pool id
+)
+
+func verifEvent(pool, ev string, n int, err error) {
+	f := VerifSink
+	if f == nil {
+		return
+	}
+	c, _ := verifSeq.LoadOrStore(pool, new(int64))
+	f(pool, atomic.AddInt64(c.(*int64), 1), ev, n, err)
+}
+
+func verifBind(ah *runAwaitHandle, pool string) {
+	if VerifSink != nil {
+		verifPools.Store(ah, pool)
+	}
+}
+
+func verifAwait(ah *runAwaitHandle, ev string, n int, err error) {
+	if VerifSink == nil {
+		return
+	}
+	pool, _ := verifPools.Load(ah)
+	id, _ := pool.(string)
+	verifEvent(id, ev, n, err)
+}
+
+func verifEngine(e *Engine, ev string) {
+	id := ""
+	if len(e.config.Pools) > 0 {
+		id = e.config.Pools[0].ID
+	}
+	verifEvent(id, ev, 0, nil)
+}
+
+func verifWrapWaitDone(pool string, onWaitDone func()) func() {
+	if onWaitDone == nil || VerifSink == nil {
+		return onWaitDone
+	}
+	return func() {
+		verifEvent(pool, "WaitDone", 0, nil)
+		onWaitDone()
+	}
+}
+
+// VerifIsOutOfAmmo lets a harness classify an instance run result.
+func VerifIsOutOfAmmo(err error) bool { return err == outOfAmmoErr }
